@@ -23,6 +23,18 @@ func corpus(w *lib.Writer) {
 		Step{Op: "concat", Sep: "2c"}, Step{Op: "concat", Sep: "2c", I: zp(3)}, Step{Op: "concat", Sep: "2c", I: zp(1), J: zp(0)})
 	// C18-4 (fixed e2b0a5a): a range holding a single number still yields a string
 	add(ins(I(5)), Step{Op: "concat", Sep: ""}, ins(I(6)), Step{Op: "concat", Sep: "2c", I: zp(2), J: zp(2)})
+	// round-2 observations (all fixed): maxn over the hash part (ef2c8e3), concat without clamping (b7c8280),
+	// remove outside 1..#t returns nothing (5e1cfe4), sort(t, nil) (c5aee85), insert with 4 arguments (1acc103)
+	askK := func(k, v tv.V) Step { return Step{Op: "assignk", K: &k, V: &v} }
+	add(askK(tv.Num(2.5), I(1)), Step{Op: "maxn"}, ins(I(1)), ins(I(2)), Step{Op: "maxn"}, askK(tv.Num(2.5), tv.Nil()), Step{Op: "maxn"},
+		askK(tv.Num(-1.5), I(1)), Step{Op: "maxn"}, askK(I(100000000), I(1)), Step{Op: "maxn"})
+	add(ins(I(1)), ins(I(2)), ins(I(3)), Step{Op: "concat", Sep: "2c", I: zp(5), J: zp(7)}, Step{Op: "concat", Sep: "2c", I: zp(0), J: zp(2)},
+		Step{Op: "concat", Sep: "2c", I: zp(2), J: zp(5)}, Step{Op: "concat", Sep: "2c", I: zp(4)}, Step{Op: "concat", Sep: "2c", I: zp(0)},
+		asg(0, S("z")), Step{Op: "concat", Sep: "2c", I: zp(0), J: zp(2)})
+	add(Step{Op: "rem1"}, Step{Op: "rem2", I: zp(1)}, ins(I(1)), ins(I(2)), ins(I(3)), Step{Op: "rem2", I: zp(5)}, rd, Step{Op: "rem2", I: zp(0)}, rd,
+		Step{Op: "rem2", I: zp(-1)}, rd, Step{Op: "rem2", I: zp(4)}, rd, Step{Op: "rem1"}, rd)
+	add(ins(I(3)), ins(I(1)), ins(I(2)), Step{Op: "sort", Cmp: &Cmp{Kind: "nil"}}, rd, Step{Op: "insbad"}, rd,
+		Step{Op: "sort", Cmp: &Cmp{Kind: "gt_truthy"}}, rd, Step{Op: "sort", Cmp: &Cmp{Kind: "lt_truthy"}}, rd)
 	// C09-1 at the library level (fixed 875f0ec): unpack(t, 0, 1) sees t[0]
 	add(asg(0, S("z")), ins(S("a")), Step{Op: "unpack", I: zp(0), J: zp(1)})
 	// empty and one-element lists
